@@ -58,10 +58,13 @@ const (
 	// a manager that has been RUNNING since the address was advertised must contain every hash of every address it
 	// advertised during the current or the previous certificate period; otherwise a dialer that learned that address
 	// pins the served certificate and is then refused by upgrade() ("missing cert hash"). That is a violation.
-	// An address advertised by an EARLIER RUN (before a restart) is judged as before: a restarted manager cannot know
-	// the previous certificate, the statement obliges the dialer to require confirmation, not a restarted server to
-	// give it, so that case is recorded as an outcome class only (see report).
-	c18ConfirmAfterRestartIsViolation = false
+	// An address advertised by an EARLIER RUN (before a restart) is held to the same rule: certificates are a
+	// deterministic function of the host key and the time bucket precisely so that a restarted listener can stand in
+	// for the run before it ("every restart at an arbitrary later instant" is in the quantifier), so it can - and must
+	// - regenerate the previous bucket's certificate and confirm its hash. (At first this case was only recorded as an
+	// outcome class, on the argument that a restarted manager cannot know the previous certificate; a reviewing
+	// sub-agent pointed out that it can. The tree was repaired: see DESIGN.md section 9, row 31.)
+	c18ConfirmAfterRestartIsViolation = true
 )
 
 // ---------- host keys ----------
@@ -597,7 +600,7 @@ func (in *c18Inst) sample(pos string, boundary, first, fresh bool) error {
 			case confirmed:
 				in.outcome("address learned in the " + cls + " from an earlier run (before a restart): every hash confirmed by SerializedCertHashes")
 			default: // a.run != in.restarts: see c18ConfirmAfterRestartIsViolation
-				in.outcome("address learned in the " + cls + " from an earlier run (before a restart): a hash is NOT confirmed by the restarted manager (observation, not flagged)")
+				in.outcome("address learned in the " + cls + " from an earlier run (before a restart): a hash is NOT confirmed by the restarted manager ")
 				if c18ConfirmAfterRestartIsViolation {
 					return seqmc.Violation("learned-address-not-confirmed-after-restart", "at %s address learned at %s (%s) vs server list %s", in.rel(now), in.rel(a.at), a.sig, sig)
 				}
